@@ -290,7 +290,7 @@ var $newType = (size, kind, string, named, pkg, exported, constructor) => {
                 /* methods for embedded fields */
                 $addMethodSynthesizer(() => {
                     var synthesizeMethod = (target, m, f) => {
-                        if (target.prototype[m.prop] !== undefined) { return; }
+                        if (Object.prototype.hasOwnProperty.call(target.prototype, m.prop)) { return; }
                         target.prototype[m.prop] = function(...args) {
                             var v = this.$val[f.prop];
                             if (f.typ === $jsObjectPtr) {
@@ -411,7 +411,7 @@ var $methodSet = typ => {
     if (typ.methodSetCache !== null) {
         return typ.methodSetCache;
     }
-    var base = {};
+    var base = Object.create(null); /* no inherited members: a method may be named toString */
 
     var isPtr = (typ.kind === $kindPtr);
     if (isPtr && typ.elem.kind === $kindInterface) {
